@@ -458,8 +458,9 @@ def spec_panic_sites(prog, rep=None):
     if tdt is None:
         raise AnchorLost("enum TagDataType not found in facts")
     vnames = [v["name"] for v in tdt["variants"]]
-    for fn in ("read_tag", "roll_up_children", "peek_valid_tag_header", "read_next"):
-        body = find_one(prog, "TagIterator::" + fn)
+    fn_bodies = sorted((b for b in prog.bodies.values() if b.promoted_index is None and b.kind != "closure" and b.crate == "ebml_iterable"
+                        and b.path.startswith(ITER + "::")), key=lambda b: b.key)
+    for body in fn_bodies:
         dom = body.dominators()
         for bb, t, c in body.calls():
             if c is None:
@@ -492,7 +493,7 @@ def spec_panic_sites(prog, rep=None):
                                 ev = "dominated by the TagDataType::%s arm" % want
                 if tt["k"] == "call" and (mirlib.callee_name(tt) or "").endswith("EbmlTag::as_master"):
                     ev = ev or "dominated by as_master() on the same tag"
-            if ev is None and want == "Master" and body.name in ("peek_valid_tag_header",):
+            if ev is None and want == "Master" and any((strip_generics(c2["path"]) if c2 else "").endswith("EbmlSpecification::get_path_by_id") for _, _, c2 in body.calls()):
                 ev = "id taken from get_path_by_id (path ids are masters; C18 R-DERIVE-VALIDATES)"
             if ev is None and body.name == "roll_up_children":
                 # the id is a parameter: every caller passes the id of a tag whose as_master() returned Some(Start)
@@ -530,32 +531,34 @@ def spec_panic_sites(prog, rep=None):
                     allowed.add((body.key, "PRECOND@%d" % site[0]))
     # the `PathPart::Global(_) => unreachable!()` arm of the closure that seeds the implied ancestors: reachable only if the path
     # contains a placeholder, which the dominating `path.iter().all(|p| matches!(p, PathPart::Id(_)))` test excludes
-    pv = find_one(prog, "TagIterator::peek_valid_tag_header")
-    maps = pv.calls_to("std::iter::Iterator::map")
-    alls = pv.calls_to("std::iter::Iterator::all")
-    for mb, mt, mc in maps:
-        a1 = mt["args"][1]
-        clo = None
-        for b2, i, stmt in pv.statements():
-            if stmt["k"] == "assign" and a1.get("k") in ("copy", "move") and stmt["place"]["local"] == a1["place"]["local"] and stmt["rv"].get("agg") == "closure":
-                clo = strip_generics(stmt["rv"]["def"])
-        guarded = False
-        for ab, at, ac in alls:
-            nxt = at["target"]
-            tt = pv.blocks[nxt]["term"] if nxt is not None else None
-            if tt is not None and tt["k"] == "switch":
-                for v, tg in tt["targets"]:
-                    pass
-                true_tgt = tt["otherwise"] if all(v == 0 for v, _ in tt["targets"]) else None
-                if true_tgt is not None and pv.edge_dominates((nxt, true_tgt), mb):
-                    guarded = True
-        if clo is not None:
-            if rep is not None:
-                rep.instance("peek_valid_tag_header: unreachable!() arm of %s guarded by all(Id): %s" % (clo.split("::")[-1], guarded))
-                rep.oblige(guarded, "SPEC-CONSIST|peek_valid_tag_header|unreachable-arm", pv.span,
-                           "the closure that seeds implied ancestors is not dominated by the all(PathPart::Id) test")
-            if guarded:
-                allowed.add((clo, "PANIC"))
+    seeders = [b for b in fn_bodies if b.calls_to("std::iter::Iterator::map") and b.calls_to("std::iter::Iterator::all")
+               and any((strip_generics(c2["path"]) if c2 else "").endswith("EbmlSpecification::get_path_by_id") for _, _, c2 in b.calls())]
+    for pv in seeders:
+      maps = pv.calls_to("std::iter::Iterator::map")
+      alls = pv.calls_to("std::iter::Iterator::all")
+      for mb, mt, mc in maps:
+          a1 = mt["args"][1]
+          clo = None
+          for b2, i, stmt in pv.statements():
+              if stmt["k"] == "assign" and a1.get("k") in ("copy", "move") and stmt["place"]["local"] == a1["place"]["local"] and stmt["rv"].get("agg") == "closure":
+                  clo = strip_generics(stmt["rv"]["def"])
+          guarded = False
+          for ab, at, ac in alls:
+              nxt = at["target"]
+              tt = pv.blocks[nxt]["term"] if nxt is not None else None
+              if tt is not None and tt["k"] == "switch":
+                  for v, tg in tt["targets"]:
+                      pass
+                  true_tgt = tt["otherwise"] if all(v == 0 for v, _ in tt["targets"]) else None
+                  if true_tgt is not None and pv.edge_dominates((nxt, true_tgt), mb):
+                      guarded = True
+          if clo is not None:
+              if rep is not None:
+                  rep.instance("%s: unreachable!() arm of %s guarded by all(Id): %s" % (pv.name, clo.split("::")[-1], guarded))
+                  rep.oblige(guarded, "SPEC-CONSIST|seed-ancestors|unreachable-arm", pv.span,
+                             "the closure that seeds implied ancestors is not dominated by the all(PathPart::Id) test")
+              if guarded:
+                  allowed.add((clo, "PANIC"))
     # closures nested in closures (peek_valid_tag_header's map over the path)
     for b in prog.bodies.values():
         if b.kind != "closure" or not (b.parent or "").startswith(ITER):
